@@ -429,6 +429,52 @@ fn random_program(rng: &mut Rng, depth: u32) -> Vec<Node> {
 /// set (emit-once blocks, a flag set by another macro between two identical calls): every call must
 /// select its branch from the state at that point. Oracle: the same program with every call
 /// replaced by its body (expanded on the IR), and the reference image.
+/// Unselected branches inside the body of a macro that takes parameters: they may name parameters the
+/// call does not pass (an optional last parameter), or hold garbage around an `@n` - no effect either way.
+fn optional_parameters(ctx: &Ctx, n: u64) {
+    fw::par_for(n, 16, |i| {
+        let mut rng = Rng::for_case(ctx.seed, 0xC08_B, i);
+        let nargs = 1 + rng.usize(3);
+        let used: Vec<String> = (0..nargs).map(|k| format!("@{}", k)).collect();
+        let beyond = nargs + rng.usize(3);
+        let mut body = String::new();
+        let mut parts: Vec<u8> = (0..4).collect();
+        rng.shuffle(&mut parts);
+        for part in parts.iter().take(2 + rng.usize(3)) {
+            match part {
+                0 => body.push_str(&format!(".if 0\n\t.dw @{}\n\tgarbage @{} (\n.endif\n", beyond, beyond + 1)),
+                1 => body.push_str(&format!(".ifdef OPTIONAL_NOT_GIVEN_{}\n\t.dw @0, @{}\n.else\n\t.dw {}\n.endif\n", i, beyond, used.join(", "))),
+                // (the condition of an .elif line is part of the chain, not of a branch: it stays well-formed)
+                2 => body.push_str(&format!(".ifndef OPTIONAL_NOT_GIVEN_{}\n\t.dw {}\n.elif 1\n\tldi r16, @{}\n.else\n\t.if @{} > 1\n\t.error \"not this branch @{}\"\n\t.endif\n.endif\n", i, used.join(", "), beyond, beyond, beyond)),
+                _ => body.push_str(&format!(".if 1\n\t.dw {}\n.else\n\t.db @{}, @{}\n\tldi @{}, @{}\n.endif\n", used.join(", "), beyond, beyond + 2, beyond, beyond)),
+            }
+        }
+        let emits = body.matches(&format!("\t.dw {}\n", used.join(", "))).count();
+        let mut src = format!("; C08 optional parameters\n.macro opt_mac\n{}.endm\n", body);
+        let mut expect: Vec<u8> = vec![];
+        for _ in 0..2 + rng.usize(3) {
+            let vals: Vec<u16> = (0..nargs).map(|_| rng.below(0x10000) as u16).collect();
+            src.push_str(&format!("\topt_mac {}\n", vals.iter().map(|v| format!("{}", v)).collect::<Vec<_>>().join(", ")));
+            for _ in 0..emits {
+                for v in &vals {
+                    expect.extend(v.to_le_bytes());
+                }
+            }
+        }
+        let out = fw::build_str(&src);
+        ctx.eval(1);
+        ctx.count("optional_parameter_programs", 1);
+        ctx.distinct(fw::hash_str(&src));
+        if !matches!(&out, Outcome::Ok(b) if b.code == expect) {
+            ctx.violation(
+                "cond/in-macro-body/unselected-branch-names-missing-parameter",
+                format!("macro called with {} argument(s) whose unselected branches name @{}: {}", nargs, beyond, fw::clip(&format!("{:?}", out.brief()), 200)),
+                json!({"source": src, "deleted": src, "shape": "optional-parameter", "detail": {"expect_code": fw::hex(&expect, 4096)}, "observed": out.brief()}),
+            );
+        }
+    });
+}
+
 fn macro_hosted(ctx: &Ctx, n: u64) {
     fw::par_for(n, 16, |i| {
         let mut rng = Rng::for_case(ctx.seed, 0xC08_A, i);
@@ -522,6 +568,7 @@ pub fn run(ctx: &Ctx) -> i32 {
         check(ctx, &nodes, "random");
     });
     macro_hosted(ctx, ctx.tier.pick(1_000u64, 1_000_000u64));
+    optional_parameters(ctx, ctx.tier.pick(600u64, 200_000u64));
     ctx.exhaustive.store(false, std::sync::atomic::Ordering::Relaxed);
     fw::finish(
         ctx,
@@ -540,6 +587,10 @@ pub fn replay(ctx: &Ctx, case: &Value) -> i32 {
     ctx.distinct(2);
     if a != b || !a.is_ok() {
         ctx.violation("cond/replay", format!("full program and program with unselected lines deleted still differ: {:?} vs {:?}", a.kind(), b.kind()), case.clone());
+    } else if let (Some(want), Outcome::Ok(r)) = (case["detail"]["expect_code"].as_str(), &a) {
+        if fw::hex(&r.code, 4096) != want {
+            ctx.violation("cond/replay", "image still differs from the expected one", case.clone());
+        }
     }
     fw::finish(ctx, "replay", &[])
 }
